@@ -645,6 +645,9 @@ func (c *client) loopWrite() {
 
 		select {
 		case <-c.quit:
+			// the request in hand is in neither queue, nobody else
+			// will answer it.
+			req.SetResponse(newError(backendExited))
 			return
 		case c.processingReqs <- req:
 		}
